@@ -25,7 +25,9 @@ instructions:
 """
 
 # (b1, ACH: names that have the shape of a number; a defined symbol is substituted wherever it occurs as a whole word)
-NAMES = ['VAL', 'VALUE2', 'AA', 'AB', 'BASE', 'OFFSET', 'LIMIT', 'MODE', 'DEBUG', 'X1', 'X2', 'X3', 'FOO', 'FOO_BAR', '_S1', 'S_', 'k9', 'b1', 'ACH']
+# k9 stays the LAST name: the file tie's tables may refer to it ('k9+1') and a #define only ever refers to later names, which
+# keeps that tie free of cycles (a cycle is reported by the implementation even for a line of an unselected branch)
+NAMES = ['VAL', 'VALUE2', 'AA', 'AB', 'BASE', 'OFFSET', 'LIMIT', 'MODE', 'DEBUG', 'X1', 'X2', 'X3', 'FOO', 'FOO_BAR', '_S1', 'S_', 'b1', 'ACH', 'k9']
 
 
 # ------------------------------------------------------------------ C09 unit tie
